@@ -531,7 +531,9 @@ class FileIndex(Index):
             # It removes any readers it reuses from the "reusable" dictionary,
             # so later we can close any readers left in the dictionary.
             def segreader(segment):
-                if segment in reusable:
+                if (segment in reusable
+                    and (reusable[segment].segment().doc_count()
+                         == segment.doc_count())):
                     r = reusable[segment]
                     del reusable[segment]
                     return r
